@@ -568,6 +568,7 @@ def completion_check(I, strict_pending=True):
     content; operations whose acknowledgement has not arrived have no DONE."""
     out = []
     fed = []       # (seg, kind, pid, pkt) acknowledgements fed so far while run() is serving
+    fed_by_pid = {}
     ping_queue = []      # pings whose PINGREQ was written, in issue order (a dropped one still owns the next PINGRESP)
     ping_released = set()
     for e in I.events:
@@ -578,6 +579,7 @@ def completion_check(I, strict_pending=True):
             if p['type'] == 13 and ping_queue:
                 ping_released.add(ping_queue.pop(0).id)
             fed.append((e['seg'], ACK_KIND[p['type']], p.get('pid'), p))
+            fed_by_pid.setdefault(p.get('pid'), []).append(fed[-1])
         if e['kind'] != 'done' or e['op'] is None:
             continue
         op, txt = e['op'], e['text']
@@ -598,7 +600,7 @@ def completion_check(I, strict_pending=True):
             out.append((I.name, e['seg'], f'op{op.id} completed with `{txt}` but never reached the wire'))
             continue
         want = {'PUBLISH': ['puback'] if op.qos == 1 else ['pubrec', 'pubcomp'], 'SUBSCRIBE': ['suback'], 'UNSUBSCRIBE': ['unsuback']}[op.kind]
-        mine = [(s, k, p) for s, k, pid, p in fed if pid == op.pid and k in want and s >= op.w[0][0]]
+        mine = [(s, k, p) for s, k, pid, p in fed_by_pid.get(op.pid, []) if k in want and s >= op.w[0][0]]
         ok = False
         for s, k, p in mine:
             exp = view_ack_done(k, p)
